@@ -14,7 +14,7 @@ RULE = ("1-3 local TagLibrary objects and the module-level API; 5-40 ops from ad
         "method names, dunders, (global library) module globals, arbitrary strings; ids from -2 to len+2 and far beyond; "
         "non-trivial = >=3 accepted tags, >=1 rejected add between two accepted ones and >=1 hostile name; distinct = "
         "sequence of (library, op, name class, outcome)"
-        "; also: builtin names, module-type attributes (__annotations__ ...), many more dunders, private attribute names looked up on the global library")
+        "; also: builtin names, module-type attributes (__annotations__ ...), many more dunders, private attribute names looked up on the global library, names holding format / template syntax ({x}, %s, ...) added twice")
 COMPONENTS = {"real": ["ECAgent.Tags.TagLibrary (add_tag, get_tag_name, itemize, __len__, attribute lookup)",
                        "module-level add_tag / get_tag_name / itemize / __getattr__ and the global library"],
               "stub": ["none"]}
@@ -39,7 +39,9 @@ DUNDER = ["__len__", "__dict__", "__class__", "__init__", "__doc__", "__module__
 MODGLOBALS = ["TagLibrary", "itemize", "DuplicateTagError", "TagNotFoundError", "_module_library", "add_tag",
               "get_tag_name", "__name__", "__getattr__"]
 BUILTINS = ["super", "enumerate", "hasattr", "globals", "len", "list", "print", "type", "int", "str", "range", "isinstance"]
-ARBITRARY = ["", " ", "two words", "9lives", "naïve", "a.b", "SHEEP\n", "None", "none"]
+ARBITRARY = ["", " ", "two words", "9lives", "naïve", "a.b", "SHEEP\n", "None", "none",
+             # text that means something to str.format / %-formatting / templates (error messages quote the name)
+             "{x}", "{}", "{0}", "a{b", "}{", "{{a}}", "{0!r:>10}", "%s", "%(x)s", "100%", "%d%%", "${HOME}", "\\", "'q'", "tab\there"]
 PLAIN = ["SHEEP", "WOLF", "GRASS", "PREY", "A", "B", "C", "tag_1", "x"]
 
 
@@ -77,6 +79,8 @@ def generate(rng, tier):
             else:
                 name = rng.choice(PLAIN)
             ops.append({"lib": lib, "op": "add", "name": name})
+            if h < hostile_rate and rng.random() < 0.35:
+                ops.append({"lib": lib, "op": "add", "name": name})      # ... and once more: rejected as a duplicate
         elif r < 0.65:
             ops.append({"lib": lib, "op": "by_name", "name": rng.choice(PLAIN + ["NONE", "ghost", "UNKNOWN"] +
                                                                        (PRIVATE if lib == "g" else []))})
